@@ -49,6 +49,8 @@ static MantisParallelECBVtable_t const mantis_parallel_ecb_vec128 = {
 int mantis_parallel_ecb_init(MantisParallelECB_t *ecb)
 {
     MantisKey_t *ctx;
+    if (!ecb)
+        return 0;
     if ((ctx = calloc(1, sizeof(MantisKey_t))) == NULL)
         return 0;
     ecb->vtable = 0;
